@@ -76,7 +76,7 @@ def collect_ints(x, out, depth=0):
                 pass
 
 
-def native_check(contract, args, kwargs=None, only=None, window=12):
+def native_check(contract, args, kwargs=None, only=None, window=12, with_domain=True):
     """Run the real function on concrete arguments and evaluate the contract.
 
     Returns dict(status=..., failed=[clause names], detail=str).
@@ -99,7 +99,7 @@ def native_check(contract, args, kwargs=None, only=None, window=12):
     set_native_window(ints, window)
     loc = dict(env)
     try:
-        for rq in contract.requires:
+        for rq in contract.requires + (contract.domain if with_domain else []):
             code, olds = split_old(rq)
             if not eval(code, ns, dict(loc, __old=[])):
                 return dict(status='pre-false', failed=[rq], detail='')
